@@ -106,18 +106,26 @@ def expected_frequencies(cfg, V, params, w_max):
 
 
 def superposition_gap(cfg, V, w_max):
+    """largest difference, over every element voltage / current and two instants, between the full time function and the sum of the time
+    functions obtained with each source acting alone (0 when they agree)"""
     r = cirlib.repo(); csol = r['csol']
     circuit, _ = build(cfg, V)
     srcs = [it[0] for it in cfg['components'] if it[3] in cirlib.SOURCES or it[3] in ('Vper', 'Iper')]
-    probe = [it[0] for it in cfg['components'] if it[3] == 'R'][:1] or [cfg['components'][-1][0]]
-    tt = np.array(0.37)
-    full = complex(csol.TimeDomainSolution(circuit=circuit, w_max=w_max).get_voltage(V.label(probe[0]))(tt))
-    parts = 0
+    ids = [it[0] for it in cfg['components']]
+    full = csol.TimeDomainSolution(circuit=circuit, w_max=w_max)
+    alone = []
     for sid in srcs:
         c1, _ = build(cfg, V, only=sid)
-        parts += complex(csol.TimeDomainSolution(circuit=c1, w_max=w_max).get_voltage(V.label(probe[0]))(tt))
-    gap = full - parts
-    return gap if abs(gap) > 1e-6 * (abs(full) + abs(parts) + 1e-9) else 0
+        alone.append((csol.TimeDomainSolution(circuit=c1, w_max=w_max), {c.id for c in c1.components}))
+    worst = 0; scale = 1e-9
+    for tt in (np.array(0.37), np.array(-1.21)):
+        for i in ids:
+            for get in ('get_voltage', 'get_current'):
+                f = complex(getattr(full, get)(V.label(i))(tt))
+                p = sum(complex(getattr(s_, get)(V.label(i))(tt)) for s_, have in alone if V.label(i) in have)
+                scale = max(scale, abs(f), abs(p))
+                if abs(f - p) > abs(worst): worst = f - p
+    return worst if abs(worst) > 1e-6 * scale else 0
 
 
 class _Earlier:
@@ -162,9 +170,9 @@ def execute(cfg, V):
         if not (abs(exp_f[a] - exp_f[b]) > RES): close = True
     if close and mode == 'time':
         if V.sym:
-            obs.append(Ob('sources within the frequency resolution of each other are counted twice', 1))
+            obs.insert(0, Ob('sources within the frequency resolution of each other are counted twice', 1))
         else:
-            obs.append(Ob('sources within the frequency resolution of each other are counted twice', superposition_gap(cfg, V, w_max), [1]))
+            obs.insert(0, Ob('sources within the frequency resolution of each other are counted twice', superposition_gap(cfg, V, w_max), [1]))
     ids = [it[0] for it in cfg['components']]
     nodes = sorted({n for it in cfg['components'] for n in (it[1], it[2])})
     wellposed = []
@@ -248,6 +256,10 @@ def worker(cfg):
     for v in out['violations']:
         v['cfg'] = dict(cfg); v['pid'] = PID
         v['sig'].update({'mode': cfg['mode'], 'n_sources': sum(1 for it in cfg['components'] if it[3] in cirlib.SOURCES or it[3] in ('Vper', 'Iper'))})
+        # the recorded defect is identified by its input region: two analysed frequencies (source frequencies or harmonics) within the
+        # resolution of each other on this path; whichever obligation the concrete run reports first is a symptom of it
+        NEAR = 'sources within the frequency resolution of each other are counted twice'
+        v['sig']['case'] = 'two_frequencies_within_the_resolution' if NEAR in v['sig'].get('symbolic_failed', ()) or v['sig'].get('obligation') == NEAR else 'other'
     for i in out['inconclusive']: i['cfg'] = dict(cfg)
     res.update({k: out[k] for k in ('paths', 'obligations', 'discharged', 'queries', 'violations', 'inconclusive', 'out_of_bound')})
     res['solver_s'] = out['solver_s']
